@@ -69,6 +69,7 @@ thread_local! {
     pub static FUEL_LIMIT: std::cell::Cell<u64> = const { std::cell::Cell::new(2_000_000) };
     pub static MAX_STEPS_SEEN: std::cell::Cell<u64> = const { std::cell::Cell::new(0) };
     pub static TOTAL_CALLS: std::cell::Cell<u64> = const { std::cell::Cell::new(0) };
+    pub static LAST_STEPS: std::cell::Cell<u64> = const { std::cell::Cell::new(0) };
 }
 
 pub fn install_panic_hook() {
@@ -113,6 +114,7 @@ pub fn guarded<T>(f: impl FnOnce() -> T) -> Result<T, Fail> {
     let r = catch_unwind(AssertUnwindSafe(f));
     let steps = regexml::verif::steps();
     regexml::verif::set_fuel(0);
+    LAST_STEPS.with(|l| l.set(steps));
     MAX_STEPS_SEEN.with(|m| {
         if steps > m.get() {
             m.set(steps)
@@ -132,7 +134,7 @@ pub fn guarded<T>(f: impl FnOnce() -> T) -> Result<T, Fail> {
 }
 
 pub fn last_steps() -> u64 {
-    regexml::verif::steps()
+    LAST_STEPS.with(|l| l.get())
 }
 
 pub type Compiled = Result<Result<Regex, ErrKind>, Fail>;
